@@ -79,6 +79,13 @@ def run(tier, out, model_ok, proof):
     # the two known shapes always run
     projects.append({"root.jst": b"JSIGHT 0.3\nURL /a\n(\n"})
     projects.append({"root.jst": b"JSIGHT 0.3\nINCLUDE a.jst\nINCLUDE b.jst\n", "a.jst": b"TYPE @a any\n", "b.jst": b"TYPE @b any\nBody any\n"})
+    # an error inside a type that is used by other (mutually recursive) types, in every order (F12)
+    ta = b'TYPE @ra\n{\n  "x": @rb, // {optional: true}\n  "bad": @nosuchtype\n}\n'
+    tb = b'TYPE @rb\n{\n  "y": @ra // {optional: true}\n}\n'
+    tc = b'TYPE @rc\n{\n  "z": @rb\n}\n'
+    for perm in ([ta, tb, tc], [tb, ta, tc], [tc, tb, ta], [tb, tc, ta], [ta, tc, tb], [tc, ta, tb]):
+        projects.append({"root.jst": b"JSIGHT 0.3\n" + b"".join(perm) + b"GET /x\n  200 @rc\n"})
+        projects.append({"root.jst": b"JSIGHT 0.3\nINCLUDE t1.jst\nINCLUDE t2.jst\nGET /x\n  200 @rc\n", "t1.jst": perm[0] + perm[1], "t2.jst": perm[2]})
     for i in range(3000 if big else 400):
         roots = treecorr.gen_structured(rng, with_macros=rng.random() < 0.2)
         pos = rng.randint(1, len(roots))
